@@ -12,7 +12,12 @@
 (*                       the one-field dtypes -, else chosen by a covering rule); a user   *)
 (*                       header key that looks like a reserved name (delim, SIZE, Dtype,  *)
 (*                       nrows, shape, has_fields, version x letter case x value kind)    *)
-(*  Behaviour (checked, not exported): DoWrite, then DoRead through every reading entry   *)
+(*   ChooseHist / SimStep a history of appends and REFUSED appends (other field type, byte  *)
+(*                       order, name, shape, fewer fields) after the first write, made     *)
+(*                       through one handle / reopened r+ handles / sfile.write(append) /  *)
+(*                       io.write(append); -simulate: up to MaxHist steps                  *)
+(*  Behaviour (checked, not exported): DoWrite, DoStep (Append grows the file, Reject is a  *)
+(*  stutter), then DoRead through every reading entry   *)
 (*  point in turn, then Rewrite (another entry point overwrites the path with a different *)
 (*  table) and DoRead again.  Invariants: ReadInv, SizeInv, CrossEntry, LastWriteWins.    *)
 EXTENDS BinRoundTrip, Json
@@ -23,11 +28,13 @@ CONSTANTS BigItems,     \* row sizes (bytes) of the big tables: subset of {3, 8,
           NHdr,         \* header ids 0..NHdr-1 (0 = no header argument); the harness owns the catalogue
           CrossIO,      \* TRUE: writer x row count crossed for every dtype
           MaxFields,    \* simulation: up to this many fields
+          MaxHist,      \* simulation: histories of up to this many appends / refused appends
+          HistEvery,    \* one small header-file case in HistEvery also gets a history from HistSeq
           DoExport
 
-VARIABLES phase, src, d, c, gen, ridx, seen, last
-mcvars == <<phase, src, d, c, gen, ridx, seen, last>>
-vars == <<file, res, phase, src, d, c, gen, ridx, seen, last>>
+VARIABLES phase, src, d, c, gen, ridx, seen, last, hpos
+mcvars == <<phase, src, d, c, gen, ridx, seen, last, hpos>>
+vars == <<file, res, phase, src, d, c, gen, ridx, seen, last, hpos>>
 
 K15 == << <<"i", 1>>, <<"u", 1>>, <<"i", 2>>, <<"u", 2>>, <<"i", 4>>, <<"u", 4>>, <<"i", 8>>, <<"u", 8>>,
           <<"f", 4>>, <<"f", 8>>, <<"b", 1>>, <<"c", 8>>, <<"c", 16>>, <<"S", 1>>, <<"S", 5>> >>
@@ -55,13 +62,23 @@ UKey(u) == IF Pick(UNames, u) = "none" THEN NoUKey
            ELSE [name |-> Pick(UNames, u), lc |-> Pick(UCases, u \div 2), val |-> Pick(UVals, u \div 3)]
 
 NoCase == [src |-> "none", writer |-> "none", layout |-> "contig", descr |-> <<>>, nrows |-> 0, n |-> 0, block |-> 1,
-           hid |-> 0, ukey |-> NoUKey]
+           hid |-> 0, ukey |-> NoUKey, hmode |-> "none", steps |-> <<>>]
+
+\* ---- histories: appends tried after the first write.  A step is [kind, k, descr]: kind "good" (k rows of the
+\* file's dtype) or one of BadKinds (k rows of Variant(d, kind), to be refused).  hmode: how the appends are made.
+HModes == <<"handle", "reopen", "sfile.append", "io.append">>
+G(k)  == [kind |-> "good", k |-> k, descr |-> d]
+B(kd) == [kind |-> kd, k |-> 2, descr |-> Variant(d, kd)]
+HistSeq == << <<B("type")>>, <<B("order")>>, <<B("name")>>, <<B("shape")>>, <<B("fewer")>>,
+              <<B("type"), G(1)>>, <<G(2), B("type")>>, <<B("order"), G(1)>>, <<G(1), B("name"), G(2)>>,
+              <<B("type"), B("type")>>, <<B("shape"), G(2), B("type")>>, <<G(1), G(1), B("order")>>,
+              <<B("type"), G(3), B("fewer"), G(1)>>, <<G(2), B("fewer"), G(1)>>, <<G(1), G(2)>> >>
 NoTable == [descr |-> <<>>, rows |-> <<>>, n |-> 0, block |-> 1]
 
 Init == /\ BRInit
-        /\ phase = "start" /\ src = "none" /\ d = <<>> /\ c = NoCase /\ gen = 0 /\ ridx = 0 /\ seen = {} /\ last = NoTable
+        /\ phase = "start" /\ src = "none" /\ d = <<>> /\ c = NoCase /\ gen = 0 /\ ridx = 0 /\ seen = {} /\ last = NoTable /\ hpos = 0
 
-Keep == UNCHANGED <<file, res, c, gen, ridx, seen, last>>
+Keep == UNCHANGED <<file, res, c, gen, ridx, seen, last, hpos>>
 
 ChooseSingle ==
     /\ phase = "start"
@@ -104,7 +121,7 @@ Mix == VSum([i \in DOMAIN d |-> i * (d[i].size + 3 * Len(d[i].shape) + (IF d[i].
 Lay(n, l) == IF l = "zerod" /\ n # 1 THEN "contig" ELSE l
 MkCase(w, n, h, l) == [src |-> src, writer |-> w, layout |-> Lay(n, l), descr |-> d, nrows |-> n, n |-> n, block |-> 1,
                        hid |-> IF w \in RawWriters THEN 0 ELSE h,
-                       ukey |-> IF w \in RawWriters THEN NoUKey ELSE UKey(Mix + 3 * h + n)]
+                       ukey |-> IF w \in RawWriters THEN NoUKey ELSE UKey(Mix + 3 * h + n), hmode |-> "none", steps |-> <<>>]
 
 \* CrossIO: writer x row count crossed for every dtype, and x memory layout for the one-field dtypes
 ChooseIO ==
@@ -115,13 +132,31 @@ ChooseIO ==
                c' = MkCase(WriterSeq[wi], RowSeq[ri], (Mix + 5 * wi + 3 * ri) % NHdr, LayoutSeq[li])
        ELSE \E li \in {(Mix % Len(LayoutSeq)) + 1, ((Mix \div 5 + Len(d)) % Len(LayoutSeq)) + 1} :
                c' = MkCase(Pick(WriterSeq, Mix + li), Pick(RowSeq, Mix \div 2 + Len(d) + li), (Mix \div 3 + li) % NHdr, LayoutSeq[li])
-    /\ phase' = "case" /\ UNCHANGED <<file, res, src, d, gen, ridx, seen, last>>
+    /\ phase' = "case" /\ UNCHANGED <<file, res, src, d, gen, ridx, seen, last, hpos>>
+
+\* a history on top of a small header-file case (one in HistEvery by the covering number)
+ChooseHist ==
+    /\ phase = "case" /\ src \in {"single", "pair"} /\ c.steps = <<>> /\ c.writer \in HdrWriters
+    /\ (Mix + c.nrows) % HistEvery = 0
+    /\ LET m == Pick(HModes, Mix \div 2 + c.nrows)
+       IN c' = [c EXCEPT !.src = "hist", !.hmode = m, !.steps = Pick(HistSeq, Mix \div 3 + c.nrows + c.hid),
+                         !.writer = IF m = "handle" THEN "SFile.write" ELSE @]
+    /\ src' = "hist" /\ UNCHANGED <<file, res, phase, d, gen, ridx, seen, last, hpos>>
+
+\* simulation: long random histories (up to MaxHist steps)
+SimStep ==
+    /\ phase = "case" /\ src = "sim" /\ c.writer \in HdrWriters /\ Len(c.steps) < MaxHist
+    /\ \E kd \in BadKinds \cup {"good"}, k \in 1..2 :
+          c' = [c EXCEPT !.steps = @ \o <<IF kd = "good" THEN G(k) ELSE B(kd)>>,
+                         !.hmode = IF @ = "none" THEN Pick(HModes, Mix + k) ELSE @,
+                         !.writer = IF c.hmode = "none" /\ Pick(HModes, Mix + k) = "handle" THEN "SFile.write" ELSE @]
+    /\ UNCHANGED <<file, res, phase, src, d, gen, ridx, seen, last, hpos>>
 
 SimIO ==
     /\ phase = "descr" /\ src = "sim"
     /\ \E wi \in DOMAIN WriterSeq, ri \in DOMAIN RowSeq, h \in 0..(NHdr - 1), li \in DOMAIN LayoutSeq :
           c' = MkCase(WriterSeq[wi], RowSeq[ri], h, LayoutSeq[li])
-    /\ phase' = "case" /\ UNCHANGED <<file, res, src, d, gen, ridx, seen, last>>
+    /\ phase' = "case" /\ UNCHANGED <<file, res, src, d, gen, ridx, seen, last, hpos>>
 
 \* ---- big tables: rows x row size just above 2^24 / 2^25 bytes, row sizes that do and do not divide a power of two.
 \* A row token stands for a block of rows (about 32 blocks per table).
@@ -144,8 +179,9 @@ ChooseBig ==
           IN /\ d' = BigDescr(isz)
              /\ c' = [src |-> "big", writer |-> w, layout |-> "contig", descr |-> BigDescr(isz),
                       nrows |-> (n + b - 1) \div b, n |-> n, block |-> b,
-                      hid |-> IF w \in RawWriters THEN 0 ELSE (isz + e + wi) % NHdr, ukey |-> NoUKey]
-    /\ phase' = "case" /\ src' = "big" /\ UNCHANGED <<file, res, gen, ridx, seen, last>>
+                      hid |-> IF w \in RawWriters THEN 0 ELSE (isz + e + wi) % NHdr, ukey |-> NoUKey,
+                      hmode |-> "none", steps |-> <<>>]
+    /\ phase' = "case" /\ src' = "big" /\ UNCHANGED <<file, res, gen, ridx, seen, last, hpos>>
 
 \* ---- the behaviour of one case -----------------------------------------------------------------------
 Table(cc)  == [descr |-> cc.descr, rows |-> [i \in 1..cc.nrows |-> i], n |-> cc.n, block |-> cc.block]
@@ -156,15 +192,26 @@ HLen(cc)   == IF cc.writer \in RawWriters THEN 0 ELSE 97 + 3 * cc.hid
 DoWrite ==
     /\ phase = "case"
     /\ Write(c.writer, Table(c), HdrEnts(c), HLen(c), c.layout)
-    /\ phase' = "written" /\ gen' = 1 /\ ridx' = 0 /\ seen' = {} /\ last' = Table(c)
+    /\ phase' = "written" /\ gen' = 1 /\ ridx' = 0 /\ seen' = {} /\ last' = Table(c) /\ hpos' = 0
     /\ UNCHANGED <<src, d, c>>
 
 DoRead ==
-    /\ phase = "written" /\ ridx < Len(ReaderSeq)
+    /\ phase = "written" /\ ridx < Len(ReaderSeq) /\ (gen = 1 => hpos = Len(c.steps))
     /\ Read(ReaderSeq[ridx + 1])
     /\ ridx' = ridx + 1
     /\ seen' = IF res'.err = "none" THEN seen \cup {[descr |-> res'.descr, rows |-> res'.rows, n |-> res'.n, block |-> file.block]} ELSE seen
-    /\ UNCHANGED <<phase, src, d, c, gen, last>>
+    /\ UNCHANGED <<phase, src, d, c, gen, last, hpos>>
+
+\* the history of the case, step by step, before the reads: good appends grow the file, refused ones stutter
+DoStep ==
+    /\ phase = "written" /\ gen = 1 /\ ridx = 0 /\ hpos < Len(c.steps)
+    /\ LET s == c.steps[hpos + 1] IN
+       IF s.kind = "good"
+       THEN LET t == [descr |-> s.descr, rows |-> [i \in 1..s.k |-> 100 + 10 * hpos + i], n |-> s.k, block |-> 1]
+            IN AppendRows(c.hmode, t) /\ last' = [last EXCEPT !.rows = @ \o t.rows, !.n = @ + t.n]
+       ELSE Reject(c.hmode) /\ UNCHANGED last
+    /\ hpos' = hpos + 1
+    /\ UNCHANGED <<phase, src, d, c, gen, ridx, seen>>
 
 \* another entry point overwrites the same path with a different table (fields and rows reversed, no header)
 Reversed(s) == [i \in DOMAIN s |-> s[Len(s) + 1 - i]]
@@ -175,16 +222,16 @@ Rewrite ==
        IN /\ Write(w, t, <<>>, IF w \in RawWriters THEN 0 ELSE 61, Pick(<<"reversed", "step2", "column2d", "contig">>, Mix))
           /\ last' = t
     /\ gen' = 2 /\ ridx' = 0 /\ seen' = {}
-    /\ UNCHANGED <<phase, src, d, c>>
+    /\ UNCHANGED <<phase, src, d, c, hpos>>
 
-Next == ChooseSingle \/ ChooseFirst \/ ChooseSecond \/ ChooseIO \/ ChooseBig \/ DoWrite \/ DoRead \/ Rewrite
-NextExport == ChooseSingle \/ ChooseFirst \/ ChooseSecond \/ ChooseIO \/ ChooseBig
+Next == ChooseSingle \/ ChooseFirst \/ ChooseSecond \/ ChooseIO \/ ChooseBig \/ ChooseHist \/ DoWrite \/ DoStep \/ DoRead \/ Rewrite
+NextExport == ChooseSingle \/ ChooseFirst \/ ChooseSecond \/ ChooseIO \/ ChooseBig \/ ChooseHist
 \* simulation prints the case of the behaviour that was actually taken (a CONSTRAINT would see every candidate successor)
 SimEmit ==
     /\ phase = "case" /\ src = "sim"
     /\ PrintT(<<"CASE", ToJson(c)>>)
-    /\ phase' = "emitted" /\ UNCHANGED <<file, res, src, d, c, gen, ridx, seen, last>>
-NextSim == SimAddField \/ SimDone \/ SimIO \/ SimEmit
+    /\ phase' = "emitted" /\ UNCHANGED <<file, res, src, d, c, gen, ridx, seen, last, hpos>>
+NextSim == SimAddField \/ SimDone \/ SimIO \/ SimStep \/ SimEmit
 
 Spec == Init /\ [][Next]_vars
 
@@ -199,6 +246,10 @@ CasesInScope == phase = "case" => (/\ DescrOK(c.descr) /\ c.writer \in Writers /
                                                                                /\ c.n * ItemSize(c.descr) < Pow2(e) + Pow2(16))
                                    /\ (c.writer \in RawWriters) => (c.hid = 0 /\ c.ukey = NoUKey)
                                    /\ c.layout \in Layouts /\ (c.layout = "zerod" => c.n = 1))
+\* every step of a history is a well-formed dtype; the "bad" ones really differ from the file's
+HistOK == phase = "case" => \A i \in DOMAIN c.steps :
+             /\ DescrOK(c.steps[i].descr) /\ (c.steps[i].kind = "good") = (c.steps[i].descr = c.descr)
+             /\ c.writer \in HdrWriters /\ c.hmode \in VRange(HModes) /\ (c.hmode = "handle" => c.writer = "SFile.write")
 \* the file written does not depend on the memory layout of the array argument
 LayoutIndependent == phase = "written" => (file.rows = last.rows /\ file.descr = last.descr /\ file.n = last.n)
 
